@@ -76,7 +76,7 @@ def finish(prop, tier, seed, tasks, results, t0, meta, extra_results=None):
         elif x["status"] != "ok":
             errors.append(f"{x['name']}: {x.get('detail', x['status'])}")
     if mismatches:
-        errors.append(f"{len(mismatches)} engine-validation mismatches (model != real torch)")
+        errors.append(f"{len(mismatches)} engine-validation mismatches (model != real torch): " + json.dumps(mismatches[:2], default=str)[:1500])
     # known findings: print and keep exit 0; unknown violations -> exit 1
     lines = []
     seen = set()
